@@ -174,6 +174,8 @@ def search_only(ctx):
         r, seed = O_sub(ctx)
         d = O.gen_model(r); d['seed'] = seed
         search_one(ctx, d)
+        if ctx.hits and not ctx.quick:
+            break       # escalated search: one failing input is enough
 
 
 def replay(rp):
